@@ -71,8 +71,10 @@ def main():
                 if not any(ch.tag in ("failure", "error", "skipped") for ch in tc):
                     passed.add(f"{tc.get('classname')}::{tc.get('name')}")
             os.remove(xml)
-            missing = sorted(set(base["stable_pass"]) - passed)
-            ran["suite"] = {"passed": len(passed), "baseline": len(base["stable_pass"]), "baseline_tests_not_passing": missing}
+            head = json.load(open(os.path.join(VERIF, "tools", "head_pass.json")))["passed"]
+            missing = sorted((set(base["stable_pass"]) | set(head)) - passed)
+            ran["suite"] = {"passed": len(passed), "baseline": len(base["stable_pass"]), "passing_on_repaired_head": len(head),
+                            "baseline_or_head_tests_not_passing": missing}
             if missing:
                 print(f"{sid}: REJECT suite: baseline tests no longer pass: {missing}")
                 return 1
@@ -86,7 +88,7 @@ def main():
                 "confirmed": dict(ran, repo_head=sh(["git", "-C", "/repo", "rev-parse", "HEAD"]).stdout.strip(),
                                   how="tools/confirm_seeded.py: scratch worktree of /repo HEAD; demo exits 0 pristine, "
                                       "non-zero patched; full pytest suite (BASELINE.json command) on the patched tree "
-                                      "passes all 75 baseline tests" if suite else "demo only"),
+                                      "passes all 75 baseline tests and all 94 tests that pass on the repaired HEAD" if suite else "demo only"),
                 "checks": [notes.get("property", sid.split("_")[0])]}
         json.dump(meta, open(os.path.join(dst, "meta.json"), "w"), indent=1)
         print(f"{sid}: CONFIRMED {ran.get('suite')}")
